@@ -371,7 +371,7 @@ def rule_p_pre(prog, res):
         for i, s in enumerate(f.blocks[b]["stmts"]):
             if s["k"] == "assign" and s["rv"]["k"] == "aggregate" and s["rv"].get("path") == "message_frame::MessageFrame":
                 v = fa.rv_term(s["rv"], (b, i))
-                sl = framing.as_slice(v.args[3][fields.index("data")])
+                sl = framing.as_slice(v.args[3][fields.index("data")]) if "data" in fields and len(v.args[3]) == len(fields) else None
                 ok = False
                 d = ""
                 if sl is not None and sl[1] is not None and sl[2] is not None:
